@@ -5,7 +5,7 @@ from harness.runner import BCheck
 from scenario import pedigree as PED, phasing as PH, vcf as V
 
 LEVEL = "exploration"
-LEVEL_TEXT = ("Deductive part (vcgen/z3, all inputs, over the axiomatised pysam model): PhasedVcfWriter._remove_existing_phasing clears HP and PS and every phase bit of the target samples' calls, sorts fully known genotypes (same allele multiset), leaves partially missing / absent genotypes, the calls of non-target samples and the FORMAT keys exactly as they were (contracts/vcf_py.py). "
+LEVEL_TEXT = ("Deductive part (vcgen/z3, all inputs, over the axiomatised pysam model): PhasedVcfWriter._remove_existing_phasing clears HP and PS and every phase bit of the target samples' calls, sorts fully known genotypes (same allele multiset), leaves partially missing / absent genotypes, the calls of non-target samples and the FORMAT keys exactly as they were; VcfAugmenter._iterrecords (a generator over the reader's iterator object) yields the pending record and then exactly the next records of the requested chromosome in file order, stopping at - and keeping - the first record of another chromosome, and write_unchanged appends exactly that stream to the output, every record untouched (contracts/vcf_py.py). "
               "Bounded stand-in: whole `whatshap phase` runs (VCF-only phase inputs, no BAM needed) on generated multi-sample, multi-chromosome VCFs "
               "with arbitrary INFO/FORMAT fields, missing/partial genotypes, multi-ALT, symbolic and duplicate records and pre-existing phasing, over "
               "--sample/--chromosome selections, both tags and --only-snvs; the output is compared with the input record by record by an independent "
